@@ -339,6 +339,9 @@ rep0_pipe_close(void *arg)
 	if (nni_list_active(&s->recvpipes, p)) {
 		// We are no longer "receivable".
 		nni_list_remove(&s->recvpipes, p);
+		if (nni_list_empty(&s->recvpipes)) {
+			nni_pollable_clear(&s->readable);
+		}
 	}
 	while ((ctx = nni_list_first(&p->sendq)) != NULL) {
 		nni_aio *aio;
